@@ -316,6 +316,11 @@ func init() {
 				}
 				// the same token in non-preferred serialisation: every head (keys, lengths, integers) 1, 2, 4, 8 bytes wide
 				for _, mw := range []int{1, 2, 4, 8} {
+					if pp == "X2" && mw == 8 {
+						// the embedding-aware reader refuses a map head with an 8-byte length by design (PsaCodecReader!ArgBytes(27) = -1 is an
+						// error; exercised by codec-reader) - no listed property speaks about it for extension profiles
+						continue
+					}
 					cc.minW = mw
 					emit(fmt.Sprintf("width%d:%s", mw, kind), bases[kind], false)
 					emit(fmt.Sprintf("width%d:%s", mw, kind), shuffle(bases[kind]), false)
@@ -462,6 +467,9 @@ func init() {
 				}
 				if cc.r.Intn(8) == 0 {
 					cc.minW = []int{1, 2, 4, 8}[cc.r.Intn(4)]
+					if pp == "X2" && cc.minW == 8 {
+						cc.minW = 4
+					}
 				}
 				emit("random", e, false)
 				cc.minW = 0
